@@ -191,7 +191,17 @@ def make_scenario(sc):
                     if sc.get("logv"):
                         s.point()
                     try:
-                        if op == "swap":
+                        if sc.get("api") == "py" and op in ("swap", "reset", "cas", "deref"):
+                            # the Python-level API of lang/atom.py (used by the runtime itself), not the core fns
+                            if op == "swap":
+                                r = a.swap(F[f])
+                            elif op == "reset":
+                                r = a.reset(conc(x, sc["nan"]))
+                            elif op == "cas":
+                                r = a.compare_and_set(conc(x, sc["nan"]), conc(y, sc["nan"]))
+                            else:
+                                r = a.deref()
+                        elif op == "swap":
                             r = c["swap!"](a, F[f])
                         elif op == "swapvals":
                             r = c["swap-vals!"](a, F[f])
@@ -280,6 +290,15 @@ def scenarios(tier, rnd):
            ["swapvals-inc", "cas-1-0"], ["resetvals-2", "swap-inc"]]
     for p, q in itertools.combinations_with_replacement(two, 2):
         add([p, q], validator="lt3" if rnd.random() < 0.5 else "none", slow=True)
+    # the same atom through the Python methods Atom.swap / reset / compare_and_set / deref (lang/atom.py): the pairs
+    # of single operations and the slow two-operation programs
+    py_singles = ["swap-inc", "swap-dbl", "swap-throw", "reset-1", "reset-5", "cas-0-1", "cas-1-7", "deref"]
+    for p, q in itertools.combinations_with_replacement(py_singles, 2):
+        add([[p], [q]], validator="lt3" if rnd.random() < 0.3 else "none")
+        scs[-1]["api"] = "py"
+    for p, q in itertools.combinations_with_replacement(two[:4], 2):
+        add([p, q], validator="none", slow=True)
+        scs[-1]["api"] = "py"
     if tier == "thorough":
         trip = ["swap-inc", "reset-1", "cas-0-1", "swapvals-inc", "deref", "swap-dbl", "cas-1-7", "reset-nan"]
         for p, q, r in itertools.combinations_with_replacement(trip, 3):
